@@ -189,7 +189,8 @@ def build_design(ctx, i, kind):
     if kind == 'generic':
         gen_designs.make_design(rng, wide_prob=0.12, n_ops=rng.randint(4, 14))
     elif kind == 'synth':
-        gen_designs.make_design(rng, wide_prob=0.0, max_width=3, n_ops=rng.randint(3, 7))
+        gen_designs.make_design(rng, wide_prob=0.0, max_width=rng.choice([2, 3]), n_ops=rng.randint(2, 5),
+                                allow_rom=False)
         pyrtl.synthesize()
     elif kind == 'logic':
         gen_designs.make_design(rng, wide_prob=0.2, n_ops=rng.randint(4, 12), ops_subset=LOGIC_OPS)
@@ -486,7 +487,7 @@ def run(ctx):
                             try:
                                 d2 = nlx.Dump(block)
                                 regmap2 = {q: v for q, v in regmap.items() if q in d2.wid}
-                                extra_exprs.append('spec_case %s %d %s %s %s %s' % (
+                                extra_exprs.append('ref_case %s %d %s %s %s %s' % (
                                     d2.coq(), dflt, d2.regmap(regmap2), d2.memmap(memmap),
                                     d2.inputs(inputs), nlx.pairs(probes)))
                                 extra_ref.append((len(cases), si, d2.names()))
@@ -633,18 +634,19 @@ def run(ctx):
                 ctx.count('structural_tie', 'census-only(pair with two_way_fanout)')
             # ---- tie: behaviour (model result under the reference semantics vs real result)
             if r['trace'] is not None and flags[2] == 1:
-                if mspec[0][0] != 1:
+                if flags[5] == 0:
                     ctx.model_mismatch('wfb false on the model result of %s' % psn, rep)
+                ctx.count('wfb_of_model_result', {1: 'true', 0: 'false', 2: 'not-evaluated(>120 nets)'}[flags[5]])
                 midx = [morder.index(o) for o in c['outs']]
-                mtrace = [[row[k] for k in midx] for row in mspec[2:]]
-                if mtrace != r['trace'] or mspec[1] != r['mem']:
+                mtrace = [[row[k] for k in midx] for row in mspec[1:]]
+                if mtrace != r['trace'] or mspec[0] != r['mem']:
                     ctx.model_mismatch('model result and real result behave differently after %s' % psn, rep)
             if (ci, si) in extra_by and r['trace'] is not None:
                 nms, sres = extra_by[(ci, si)]
                 ridx = [nms.index(o) for o in c['outs']]
-                rtrace = [[row[k] for k in ridx] for row in sres[2:]]
+                rtrace = [[row[k] for k in ridx] for row in sres[1:]]
                 ctx.count('real_result_under_reference_semantics', 'checked')
-                if sres[0][0] != 1 or rtrace != r['trace'] or sres[1] != r['mem']:
+                if rtrace != r['trace'] or sres[0] != r['mem']:
                     ctx.model_mismatch('reference semantics of the dumped real result of %s differs from '
                                        'its Simulation' % psn, rep)
 
